@@ -309,6 +309,7 @@ func runSerialize(ctx *core.Ctx, in input) {
 		return
 	}
 	raw, unitPrime, valid, inEnum := "None", false, true, true
+	ecD, ecN, ecSize, ecClass := "0", "0", "0", ""
 	var rk any
 	if err := key.Raw(&rk); err == nil {
 		switch r := rk.(type) {
@@ -324,6 +325,11 @@ func runSerialize(ctx *core.Ctx, in input) {
 			}
 		case *ecdsa.PrivateKey:
 			raw = "(Some REcdsaPriv)"
+			if r.D != nil && r.Curve != nil {
+				sz := (r.Curve.Params().BitSize + 7) / 8
+				ecD, ecN, ecSize = r.D.String(), r.Curve.Params().N.String(), fmt.Sprint(sz)
+				ecClass = fmt.Sprintf("/%s/dlen%+d/inrange=%v", r.Curve.Params().Name, (r.D.BitLen()+7)/8-sz, r.D.Sign() > 0 && r.D.Cmp(r.Curve.Params().N) < 0)
+			}
 		case ed25519.PrivateKey:
 			raw = "(Some REd25519Priv)"
 		case *rsa.PublicKey:
@@ -351,8 +357,8 @@ func runSerialize(ctx *core.Ctx, in input) {
 		ctx.Sink.Add(c)
 		return
 	}
-	emit(ctx, in, "B", fmt.Sprintf("CSerializeKey %s %s %s", raw, hx.CoqBool(unitPrime), hx.CoqBool(valid)), o,
-		fmt.Sprintf("serialize/%s/%v/%v", raw, unitPrime, valid), false,
+	emit(ctx, in, "B", fmt.Sprintf("CSerializeKey %s %s %s %s %s %s", raw, hx.CoqBool(unitPrime), hx.CoqBool(valid), ecD, ecN, ecSize), o,
+		fmt.Sprintf("serialize/%s/%v/%v%s", raw, unitPrime, valid, ecClass), false,
 		map[string]any{"raw": raw, "rsa_unit_prime": unitPrime, "rsa_valid": valid})
 }
 
